@@ -303,6 +303,16 @@ def _run_isconn(job):
             a, b = tuple(int(x) for x in ed[k, 0]), tuple(int(x) for x in ed[k, 1])
             conds.append(zb(res[k]) == lat.bit[lat.edge_between(a, b)])
         obs.append((f"is_connection(edge) == that edge's bit, all {len(ed)} edges", z3.And(*conds)))
+        if variant != "shim":
+            def real(inp, _edges=edges):
+                return [bool(x) for x in is_connection(_edges, T.concrete_bits(inp, n))]
+
+            inp = core.path_inputs(ctx)
+            m = ctx.solver.model()
+            shim_vals = [bool(z3.is_true(m.eval(zb(res[k]), model_completion=True))) for k in range(len(ed))]
+            if real(inp) != shim_vals:
+                raise Inconclusive("shim/real disagreement on is_connection")
+            ctx.notes["validated"] = 1
         # the edge list itself: every lattice edge exactly once
         obs.append(("lattice_connection_array lists every lattice edge once", z3.BoolVal(
             sorted(tuple(sorted((tuple(int(x) for x in e[0]), tuple(int(x) for x in e[1])))) for e in (ed[:len(ed) // 2] if variant == "both" else ed))
@@ -522,10 +532,23 @@ def _run_stream(job):
             maze, lat, ends = T.build_sym_maze(ctx, job["maze"])
             toks = tok.to_tokens(maze)
             msg = check_stream(toks, params(tok), maze)
+        if msg is None:
+            core.validate_path(ctx, list(toks), lambda inp: _real_stream(job, inp), every=job.get("validate_every", 8), what="to_tokens")
         ctx.notes["msg"] = msg
         return [("token stream: regions once and in order, vocabulary, adjacency = selected edge set with correct labels, origin, target, path", z3.BoolVal(msg is None))]
 
     return run
+
+
+def _real_stream(job, inputs):
+    if "toks" in job:
+        tok = _tokenizer_from(job["toks"][inputs.get("sel_tok", 0)])
+    else:
+        sel = {k: inputs.get("sel_" + k, job[k] if not isinstance(job[k], list) else job[k][0]) for k in ("ct", "al", "tt", "pt") if k in job}
+        tok = _tokenizer_from(dict(job, **sel))
+    maze = T.build_concrete_maze(inputs, job["maze"])
+    with T.TokEnv(script=inputs, reps_only=True, linked=job.get("linked", True)):
+        return list(tok.to_tokens(maze))
 
 
 def _replay_stream(job, inputs, notes):
